@@ -271,6 +271,85 @@ class SptenmatFam(Family):
         return out
 
 
+class SptenmatCtor(Family):
+    """sptenmat(subs, vals, rdims, cdims, tshape) with copying and sptenmat.from_array: duplicate
+    (row, column) pairs are summed, zero sums dropped; the object denotes the summed matrix."""
+    name = "sptenmat_ctor"
+    theorems = ("C01_sptenmat_entry",)
+
+    def gen(self, rng, tier):
+        out = []
+        for _ in range(40 if tier == "quick" else 400):
+            s = gen.shape(rng, 1, 4, 4)
+            N = len(s)
+            p = gen.perm(rng, N)
+            k = rng.randint(0, N)
+            r, c_ = p[:k], p[k:]
+            R, C = gen.numel([s[m] for m in r]), gen.numel([s[m] for m in c_])
+            n = rng.randint(0, 6)
+            subs = [[rng.randrange(R), rng.randrange(C)] for _ in range(n)]
+            if subs and rng.random() < 0.7:  # repeated pairs, some cancelling
+                for _ in range(rng.randint(1, 3)):
+                    subs.append(list(rng.choice(subs)))
+            vals = gen.int_values(rng, len(subs), -4, 4, nonzero=True)
+            if len(subs) >= 2 and rng.random() < 0.3:
+                subs[-1] = list(subs[0])
+                vals[-1] = -vals[0]
+            out.append({"subs": subs, "vals": vals, "rdims": r, "cdims": c_, "tshape": s,
+                        "via": rng.choice(["ctor", "ctor", "coo"])})
+        return out
+
+    def evaluate(self, cases):
+        from scipy import sparse as sp
+        impls, reqs = [], []
+        for c in cases:
+            def f(c=c):
+                r, c_ = np.array(c["rdims"], dtype=int), np.array(c["cdims"], dtype=int)
+                R = gen.numel([c["tshape"][m] for m in c["rdims"]])
+                C = gen.numel([c["tshape"][m] for m in c["cdims"]])
+                if c["via"] == "coo" and c["subs"]:
+                    rows = [x[0] for x in c["subs"]]
+                    cols = [x[1] for x in c["subs"]]
+                    M = ttb.sptenmat.from_array(sp.coo_matrix((np.array(c["vals"], dtype=float), (rows, cols)), shape=(R, C)),
+                                                r, c_, tuple(c["tshape"]))
+                else:
+                    subs = np.array(c["subs"], dtype=int).reshape(len(c["subs"]), 2) if c["subs"] else None
+                    vals = np.array(c["vals"], dtype=float).reshape(-1, 1) if c["subs"] else None
+                    M = ttb.sptenmat(subs, vals, r, c_, tuple(c["tshape"]))
+                s_ = np.asarray(M.subs)
+                return {"subs": [] if s_.size == 0 else jval(s_.astype(int)),
+                        "vals": [] if np.asarray(M.vals).size == 0 else jval(np.asarray(M.vals).reshape(-1)),
+                        "nnz": int(M.nnz), "double": ndarray_j(M.double().toarray()), "full": ndarray_j(M.full().data)}
+            impls.append(call(f))
+            reqs.append({"op": "sptenmat_ctor", "subs": c["subs"], "vals": c["vals"], "rdims": c["rdims"],
+                         "cdims": c["cdims"], "tshape": c["tshape"]})
+        models = drive(reqs)
+        out = []
+        for c, impl, m in zip(cases, impls, models):
+            dup = len(set(map(tuple, c["subs"]))) != len(c["subs"])
+            tags = [c["via"], "dup" if dup else "nodup", f"n{min(len(c['subs']), 3)}"]
+            if "ok" not in impl or "ok" not in m:
+                ok = ("ok" in impl) == ("ok" in m)
+                out.append(Verdict("ok" if ok else "violation", "" if ok else "sptenmat constructor acceptance differs from the model", impl, m, None, tags, False))
+                continue
+            r = impl["ok"]
+            R = gen.numel([c["tshape"][k] for k in c["rdims"]])
+            C = gen.numel([c["tshape"][k] for k in c["cdims"]])
+            dense = [[0] * C for _ in range(R)]
+            for (a, b), v in zip(c["subs"], c["vals"]):
+                dense[a][b] += v
+            spec = {"shape": [R, C], "data": [dense[a][b] for b in range(C) for a in range(R)]}
+            bad = None
+            if not deep_eq(r["double"], spec) or not deep_eq(r["full"], spec):
+                bad = "sptenmat does not denote the sum of the given (row, column, value) triples"
+            elif r["nnz"] != sum(1 for v in spec["data"] if v != 0) or len(r["subs"]) != r["nnz"]:
+                bad = "sptenmat reports a wrong number of nonzeros / keeps explicit zeros"
+            elif not deep_eq({"subs": r["subs"], "vals": r["vals"]}, {"subs": m["ok"]["subs"], "vals": m["ok"]["vals"]}):
+                bad = "sptenmat stored form differs from the proved model"
+            out.append(Verdict("violation" if bad else "ok", bad or "", impl, m, spec, tags, len(c["subs"]) > 0))
+        return out
+
+
 class KruskalFull(Family):
     name = "kruskal_full"
     theorems = ("C01_kruskal_full",)
@@ -312,4 +391,4 @@ class KruskalFull(Family):
 
 
 def families():
-    return [DenseSparse(), TenmatFam(), SptenmatFam(), KruskalFull()]
+    return [DenseSparse(), TenmatFam(), SptenmatFam(), SptenmatCtor(), KruskalFull()]
